@@ -280,6 +280,10 @@ def to_liquid_string(c):
     c.replay("code", code=REPLAY)
 
 
+_H2 = load.exception_hierarchy()
+lookup_warning_contracts("C02", sorted(n for n, anc in _H2.items() if "LiquidError" in anc and "LiquidInterrupt" not in anc and n != "LiquidInterrupt"))
+
+
 not_covered("C02", "RecursionError (C09) and MemoryError", "babel/dateutil internals beyond their assumed exception sets; custom tags/filters",
             "array filters are proved for a scalar left value and for arrays with a spine of 0..2 (thorough; quick: 0..1 for where/reject/find/find_index/has/sum) arbitrary items; longer arrays, a left value that is a record, range or drop, and sort_numeric / date are covered by the bounded fuzz only",
             "the interpretive layer (node render methods, parser) is covered by the bounded fuzz, not by per-function raises contracts")
